@@ -21,7 +21,7 @@ RULE = (
     "case = (forest, start); forests: every ordered forest with <= N nodes (exhaustive part) and "
     "Hypothesis-drawn deeper/wider ones; start = tree or any node. Per case ALL of: 6 ordered iterator "
     "methods x add_self, UNORDERED/RANDOM (tree), visit() x {pre,post,level} x add_self x every node as "
-    "skip/stop position x every signal form are evaluated against reference orders computed from "
+    "skip/stop position x every signal form, plus traversals with several skipping nodes (pairs, same level first; all inner nodes), are evaluated against reference orders computed from "
     "node.children by different algorithms. Non-trivial: branch has >= 4 nodes and depth >= 3 "
     "(zigzag/rtl/level skip differ from simpler orders); distinct = distinct (forest, start). Further parts: "
     "deep trees (650-800 levels, below the depth of about 990 that the traversal code handles with the default recursion "
@@ -298,6 +298,31 @@ def check_at(tree, start, rec, nt=False):
                         )
                     if r is not None:
                         rec.fail(f"visit:{m.value}:skip:return", repr(r))
+            # --- several skips in one traversal: pairs of nodes (same level first), and every inner node at once
+            if m != IterMethod.POST_ORDER and not rec.failed:
+                inner = [n for n in exp if kids[id(n)] and n is not start]
+                dep = {id(n): w.depth[id(n)] for n in inner}
+                pairs = [(a, b) for i, a in enumerate(inner) for b in inner[i + 1:]]
+                pairs.sort(key=lambda ab: dep[id(ab[0])] != dep[id(ab[1])])  # same-level pairs first
+                groups = [list(ab) for ab in pairs[:6]] + ([inner] if len(inner) >= 2 else [])
+                for grp in groups:
+                    gids = {id(n) for n in grp}
+                    hidden = set()
+                    for g in grp:
+                        hidden |= set(ids(ref_pre(kids, kids[id(g)])))
+                    exp_multi = [n for n in exp if id(n) not in hidden]
+                    calls = []
+
+                    def cb_multi(n, memo, gids=gids):
+                        calls.append(n)
+                        if id(n) in gids:
+                            return SkipBranch
+
+                    visit(m, add_self, cb_multi)
+                    ev += 1
+                    if ids(calls) != ids(exp_multi):
+                        rec.fail(f"visit:{m.value}:several-skips", {"at": [repr(g.data) for g in grp], "got": names(calls), "exp": names(exp_multi), "add_self": add_self})
+                        break
     rec.evals += ev
 
 
